@@ -103,23 +103,25 @@ InitWith(c, da) ==
     /\ result = [how |-> "", who |-> 0]
     /\ out = <<>> /\ hist = <<>>
 
-\* n callbacks with names out of `names`, every plan of ps, every useful raise script, every policy
-InitPlans(n, names, ps) ==
+\* n callbacks with names out of `names`, every plan of ps, every useful raise script, every policy of pols
+InitPlans(n, names, ps, pols) ==
     \E p \in ps :
         LET cmds == Cmds(p)
             opts == CbOptions(names, NominalDocs(cmds))
-        IN \E a \in [1..n -> opts], pol \in Policies, da \in DeliverAlls :
+        IN \E a \in [1..n -> opts], pol \in pols, da \in DeliverAlls :
               InitWith([names |-> [f \in 1..n |-> a[f][1]], raise |-> [f \in 1..n |-> a[f][2]],
                         ignore |-> pol[1], catch |-> pol[2], cmds |-> cmds], da)
+NoCatch == {<<TRUE, FALSE>>, <<FALSE, FALSE>>}
 
 Init ==
-    CASE Dom = "cfg" -> InitPlans(NCb, Names, PlanIds)
-      \* quick tier: <= 4 documents with the names that differ in behaviour, the 5-document plans with fewer names
-      [] Dom = "exh_quick" -> InitPlans(3, {"all", "event", "stop"}, {1, 2}) \/ InitPlans(3, {"all", "event"}, {3, 4, 5})
-      [] Dom = "replay_quick" -> InitPlans(3, {"all", "stop"}, {1}) \/ InitPlans(2, {"all", "event", "stop"}, {2, 5})
-      [] Dom = "exh_thorough" -> InitPlans(3, AllNames, {1, 2, 3, 4, 5})
-      [] Dom = "replay_thorough" -> InitPlans(3, AllNames, {1}) \/ InitPlans(3, {"all", "event", "stop"}, {2, 4}) \/ InitPlans(2, AllNames, {3, 5, 6})
-
+    CASE Dom = "cfg" -> InitPlans(NCb, Names, PlanIds, Policies)
+      \* quick tier: 3 callbacks; <= 4 documents with the names that differ at the stop, the 5-document plans with "all"
+      \* (name filtering and the catching plan are exhausted on the replay domain, which is checked with all invariants too)
+      [] Dom = "exh_quick" -> InitPlans(3, {"all", "stop"}, {1, 2}, NoCatch) \/ InitPlans(3, {"all"}, {3, 4, 5}, NoCatch)
+      [] Dom = "replay_quick" -> InitPlans(3, {"all", "stop"}, {1}, Policies) \/ InitPlans(2, {"all", "event", "stop"}, {2, 5}, Policies)
+      [] Dom = "exh_thorough" -> InitPlans(3, AllNames, {1, 2, 3, 4, 5}, Policies)
+      [] Dom = "replay_thorough" -> \/ InitPlans(3, AllNames, {1}, Policies) \/ InitPlans(3, {"all", "event", "stop"}, {2, 4}, Policies)
+                                    \/ InitPlans(2, AllNames, {3, 5, 6}, Policies)
 
 ----------------------------------------------------------------------------
 \* CallbackRegistry.process(kind, doc #idx): who is invoked, in which order, and whose exception comes out
